@@ -963,6 +963,18 @@ class Data(object):
         else: #pass on to superclass
             super(Data,self).__setattr__(key,value)
 
+    def __delattr__(self, key):
+        """Convert delattr to delitem on self.__dict__
+
+           object.__delattr__ removes the key from the instance .__dict__ at
+           the C level without calling the odict's __delitem__ so the odict's
+           ordered list of keys would still hold the deleted key
+        """
+        if key in self.__dict__:
+            self.__dict__.__delitem__(key)
+        else: #pass on to superclass
+            super(Data,self).__delattr__(key)
+
     def __repr__(self):
         """
         Representation
